@@ -37,7 +37,7 @@ Step ==
        /\ CASE e.ev = "reset"    -> Reset /\ Clause(e, "fx_reset", e.after = 0)
             [] e.ev = "eval"     -> EvalE(e)
             [] e.ev = "create"   ->
-                 LET C  == CellsIn(e.grid, e.bbox)
+                 LET C  == EffCells(e.grid, e.bbox)
                      st == IF C = {} THEN NoStats ELSE GridStats(e.grid, e.bbox)
                      Judged(t) == C # {} /\ WellFormed(t, st) /\ ~UsesUndefStat(t, st) /\ IsDef(Value(t, st))
                  IN  /\ Clause(e, "cc_total", (C # {} /\ \A j \in 1..Len(e.exprs) : Judged(e.exprs[j])) => e.exc = "")
